@@ -82,6 +82,19 @@ def check_one(kind, n, k, full=True):
         for s, l in zip(shards, lists):
             if list(s.items()) != list(zip(s.keys(), l)):
                 raise Violation('items-pairing', f'{kind} n={n} k={k}')
+        if n <= 30:
+            for si, s in enumerate(shards):
+                own = set(s.keys())
+                for kk in keys:
+                    try:
+                        v = s[kk]
+                    except Exception:
+                        if kk in own:
+                            raise Violation('own-key-refused', f'{kind} n={n} k={k}: shard {si}[{kk!r}] raised')
+                        continue
+                    if kk not in own:
+                        raise Violation('foreign-key-answered', f'{kind} n={n} k={k}: shard {si} answers key {kk!r} '
+                                                                f'of another shard with {v!r}')
     # the returned list belongs to the caller: emptying / reordering it must not change later answers
     if n <= 40:
         again = ds.split(k)
